@@ -129,8 +129,29 @@ pub fn run(a: &Args) {
 			let _ = wd.wallets[i].refresh();
 		}
 	}
+	// the masked wallets are (re)opened the way a client does it: through api::Owner::open_wallet, which is
+	// where their tokens come from
+	for i in [0usize, 2].iter() {
+		let o: Own = Owner::new(w.wallets[*i].inst.clone(), None);
+		let pw = w.wallets[*i].password.clone();
+		let _ = o.close_wallet(None);
+		match o.open_wallet(None, ZeroingString::from(pw.as_str()), true) {
+			Ok(Some(t)) => w.wallets[*i].mask = Some(t),
+			other => {
+				rep.inconclusive(&format!("reopening wallet {} through the Owner API gave {:?}", i, other.map(|o| o.is_some()).map_err(|e| err_kind(&e))));
+				rep.write(&a.out);
+				return;
+			}
+		}
+	}
 	let right = w.wallets[0].mask.clone();
 	let other = w.wallets[2].mask.clone();
+	rep.eval();
+	if right.is_some() && right == other {
+		rep.violation("C14|two-wallets-share-a-token", "two different wallets opened with a mask through the Owner API were given the same token", json!({"job":"c14"}));
+	} else {
+		rep.count("tokens-of-two-wallets-differ");
+	}
 	if right.is_none() {
 		rep.inconclusive("masked wallet did not return a token");
 		rep.write(&a.out);
@@ -371,7 +392,8 @@ pub fn run(a: &Args) {
 					rep.violation("C14|reopen-failed", "after reopening, the new token does not work", json!({"job":"c14"}));
 				}
 				if let Some(old) = tok {
-					if old != t2 && owner.accounts(Some(&old)).is_ok() {
+					// (a reopened wallet that hands out the previous session's token again is the same failure)
+					if owner.accounts(Some(&old)).is_ok() {
 						rep.violation("C14|old-token-works-after-reopen", "the token of the previous session still works after the wallet was reopened with a new mask", json!({"job":"c14"}));
 					}
 				}
